@@ -94,11 +94,14 @@ Inductive op :=
 | CLoad (k : key)
 | CLoadOrStore (k : key) (e : val)
 (* CheckExpirations(now), one operation per step *)
-| SweepNext (ok : option key) (now : Z) (flag : bool) (* Range step + IsExpired; key unknown to the harness unless the entry gets removed *)
+| SweepNext (ok : option key) (now : Z) (flag : bool) (* Range step + IsExpired = flag; ok: the key, where the harness learnt it (informative only) *)
 | SweepDel (k : key) (e : val) (now : Z)   (* compare-and-delete under the write lock, onExpire when removed *)
 | SweepDelKey (k : key) (e : val) (now : Z) (* OLD: Delete(key), onExpire always *)
 | SweepDelFail                             (* compare-and-delete that removed nothing (key not observable) *)
-| SweepEnd.
+| SweepEnd
+(* the owner of element i stores a new deadline into it (Element.ValidUntil is an exported atomic);
+   it takes effect on the entry under k if that entry is still element i *)
+| Extend (k : key) (i : Z) (vu : Z).
 
 (* local state of a running operation: program counter, the value read so far,
    and (ghost) the result once it is determined *)
@@ -199,13 +202,11 @@ Definition act (o : op) (l : loc) (s : st) : option (loc * st * option res) :=
       ret (set k actual s) [vid actual; b2z (negb (vid actual =? vid e))]
   | SweepNext ok now flag =>
       match pc l with
-      | O => match ok with
-             | None => cont 1 nil_val (Some [b2z flag]) s
-             | Some k => match get k s with
-                         | Some x => cont 1 x (Some [b2z (is_expired x now)]) s
-                         | None => cont 1 nil_val (Some [-2]) s
-                         end
-             end
+      (* the iteration hands out (key, element) under the read lock; IsExpired reads the element's
+         atomic deadline after the lock is dropped, and an owner may store a new deadline at any
+         time (Extend), so what the examination finds is an input: the sweep may go on to its
+         compare-and-delete for any entry at any time, and SweepDel re-tests under the write lock *)
+      | O => cont 1 nil_val (Some [b2z flag]) s
       | _ => ret s (lres l)
       end
   | SweepDel k e now =>
@@ -217,6 +218,11 @@ Definition act (o : op) (l : loc) (s : st) : option (loc * st * option res) :=
   | SweepDelKey k e _ => ret (del k s) [1]
   | SweepDelFail => ret s [0]
   | SweepEnd => ret s []
+  | Extend k i vu =>
+      match get k s with
+      | Some x => if vid x =? i then ret (set k (i, vu) s) [] else ret s []
+      | None => ret s []
+      end
   end.
 
 Definition lp_res (l : loc) : option res := lpr l.
